@@ -10,9 +10,11 @@ EXTENDS TraceKit, XLOps
 CONSTANTS OpenDevs, Slack
 
 HostUnchanged(o) == \A j \in 1..Len(o.before) : SameDeep(o.before[j], o.after[j]) /\ o.before[j] = o.after[j]
-NoRetention(o) == /\ o.series[3] - o.series[2] <= Slack
-                  /\ o.series[4] - o.series[3] <= Slack
-                  /\ o.series[4] - o.series[2] <= Slack
+Bounded(ser) == /\ ser[3] - ser[2] <= Slack
+                /\ ser[4] - ser[3] <= Slack
+                /\ ser[4] - ser[2] <= Slack
+(* series: gc-tracked objects; blocks: allocated memory blocks (also sees strings, numbers, dates) *)
+NoRetention(o) == Bounded(o.series) /\ Bounded(o.blocks)
 
 Verdict(o) ==
   CASE o.kind = "host" -> IF HostUnchanged(o) THEN <<"ok">> ELSE <<"bad", "host_value_mutated">>
